@@ -6,7 +6,7 @@
    the stream.  The model used is the REPAIRED code ([run false]).
    The input is pseudo-random and generated on both sides by the same function ([gen]), so that no input
    bytes travel as text; observed bytes do (hex), except for very large messages which are compared by
-   length + checksum + first and last 32 bytes. *)
+   length + a checksum over every 61st byte + first and last 32 bytes. *)
 From Relay Require Import Base.Prelude Model.Ingest.
 Local Open Scope N_scope.
 
@@ -17,15 +17,31 @@ Fixpoint hx (s : string) : bytes :=
   | _ => []
   end.
 
-(* byte i of the input with seed [seed] (harness/cmd/c17 computes the same in uint64) *)
-Definition gbyte (seed i : N) : N := (((i * 2654435761 + seed) / 65536) + (i * i) / 3) mod 256.
-Fixpoint gen_go (seed i : N) (n : nat) : bytes :=
-  match n with O => [] | S k => gbyte seed i :: gen_go seed (i + 1) k end.
-Definition gen (seed off n : N) : bytes := gen_go seed off (N.to_nat n).
+(* the input: three small counters (periods 251, 241, 239; together > 14 million) added up.  Cheap enough
+   for vm_compute on megabyte inputs; harness/cmd/c17 computes the same bytes. *)
+Fixpoint gen_go (x y z : N) (n : nat) : bytes :=
+  match n with
+  | O => []
+  | S k =>
+      let x' := if x =? 250 then 0 else x + 1 in
+      let y' := if y <? 234 then y + 7 else y - 234 in
+      let z' := if z <? 226 then z + 13 else z - 226 in
+      N.land (x' + y' + z') 255 :: gen_go x' y' z' k
+  end.
+(* bytes [off, off+n) of the input with seed [seed] *)
+Definition gen (seed off n : N) : bytes :=
+  gen_go ((seed + off) mod 251) ((seed + 7 * off) mod 241) ((seed + 13 * off) mod 239) (N.to_nat n).
 
 Definition beqb (a b : bytes) : bool := list_eqb N.eqb a b.
 
-Definition checksum (l : bytes) : N := fold_left (fun a b => (a * 31 + b + 1) mod 4294967291) l 7.
+(* checksum over every 61st byte (large messages only) *)
+Fixpoint every61 (k : nat) (l : bytes) : bytes :=
+  match l with
+  | [] => []
+  | b :: r => match k with O => b :: every61 60 r | S k' => every61 k' r end
+  end.
+Definition checksum (l : bytes) : N :=
+  fold_left (fun a b => N.land (N.shiftl a 5 + a + b + 1) 4294967295) (every61 0 l) 5381.
 Definition lastn (n : nat) (l : bytes) : bytes := skipn (length l - n) l.
 
 Inductive obsb :=
